@@ -132,6 +132,14 @@ def make_source(spec, spelling):
             body += ['class K: pass']
             inner += mdeco + [f'def meth(self, x: {ann}) -> {ann}: return x']
             kexpr = 'K'
+        elif target == 'attr_shadows_global':
+            body += ['class Other: pass', 'K = Other']          # a module global of the same name, bound to another class
+            inner += ['class K: pass'] + mdeco + [f'def meth(self, x: {ann}) -> {ann}: return x']
+            kexpr = '.'.join(names) + '.K'
+        elif target == 'outer_attr_hidden':
+            body += ['class K: pass', 'class Other: pass']
+            inner += mdeco + [f'def meth(self, x: {ann}) -> {ann}: return x']
+            kexpr = '__K'
         elif target in ('global_late', 'never'):
             inner += mdeco + [f'def meth(self, x: {ann}) -> {ann}: return x']
             kexpr = 'K'
@@ -139,7 +147,11 @@ def make_source(spec, spelling):
             raise KeyError(target)
         lines = inner
         for i in range(depth - 1, -1, -1):
-            lines = [f'class {names[i]}:'] + indent(lines, 1)
+            # the attribute of an enclosing class is not visible from the nested class's body (class scopes do not nest)
+            extra = ['K = Other'] if (target == 'outer_attr_hidden' and i == 0 and depth >= 2) else []
+            lines = [f'class {names[i]}:'] + indent(extra + lines, 1)
+        if target == 'outer_attr_hidden':
+            body += ['__K = K']
         if decor_cls:
             lines = ['@beartype'] + lines
         body += lines
@@ -153,6 +165,18 @@ def make_source(spec, spelling):
             body += ['class K: pass', f"__rec__.probe('after', __m, K, __self)"]
         else:
             body += [f"__rec__.probe('after', __m, {kexpr}, __self)"]
+    elif placement == 'method_in_function':
+        # two classes decorated inside one function; the first has a class variable called K bound to another class: it must not be
+        # what 'K' means in the second class (Python binds K there to the module global)
+        mdeco = ['@beartype'] if spec.get('decor') == 'function' else []
+        cdeco = ['@beartype'] if spec.get('decor') == 'class' else []
+        inner = cdeco + ['class A:', '    K = Other'] + indent(mdeco, 1) + ["    def m(self, x: 'int') -> 'int': return x"] + \
+            cdeco + ['class B:'] + indent(mdeco, 1) + [f'    def meth(self, x: {ann}) -> {ann}: return x',
+                                                      "__rec__.probe('after_alive', B.meth, K, B())", 'return B']
+        lines = [f'def outer{depth}():'] + indent(inner, 1)
+        for d in range(depth - 1, 0, -1):
+            lines = [f'def outer{d}():'] + indent(lines + [f'return outer{d + 1}()'], 1)
+        body += ['class K: pass', 'class Other: pass'] + lines + ['B_ = outer1()', "__rec__.probe('after_returned', B_.meth, K, B_())"]
     else:
         raise KeyError(placement)
     return '\n'.join(head + [l for l in body if l != '']) + '\n'
@@ -167,6 +191,10 @@ def closure_source(spec, spelling):
     pre, post, inner = [], [], []
     f = ['@beartype', f'def f(x: {ann}) -> {ann}: return x']
     if target == 'local_early':
+        inner = ['class K: pass'] + f + ["__rec__.probe('after_alive', f, K)", 'return f, K']
+        post = ["__rec__.probe('after_returned', f, K_)"]
+    elif target == 'local_shadows_global':
+        pre = ['class Other: pass', 'K = Other']
         inner = ['class K: pass'] + f + ["__rec__.probe('after_alive', f, K)", 'return f, K']
         post = ["__rec__.probe('after_returned', f, K_)"]
     elif target == 'local_late':
